@@ -312,6 +312,7 @@ class Tracer:
         self.nonlinear_atoms = 0
         self.concretized = 0
         self.max_decisions = max_decisions
+        self.max_degree = 6
         self.taint_log = []
         self.notes = []
 
@@ -441,7 +442,7 @@ class Tracer:
             return False
         if deg > 1:
             self.nonlinear_atoms += 1
-            if deg > 6 or len(p.vars()) > 4 and deg > 2:
+            if deg > self.max_degree or len(p.vars()) > 4 and deg > 2:
                 raise Intractable(f"atom of degree {deg} in {len(p.vars())} variables")
         self.decisions.append((Atom(p, op), bool(conc)))
         self.signs[p] = (poss & sat) if conc else (poss - sat)
